@@ -17,8 +17,23 @@ type result struct {
 	by  int
 }
 
-func worker(id int, jobs <-chan job, results chan<- result, wg *sync.WaitGroup) {
+// state tells the workers whether the job channel has been closed: a range loop
+// over a channel may only end after the close.
+type state struct {
+	mu     sync.Mutex
+	closed bool
+	early  int
+}
+
+func worker(id int, jobs <-chan job, results chan<- result, wg *sync.WaitGroup, st *state) {
 	defer wg.Done()
+	defer func() {
+		st.mu.Lock()
+		if !st.closed {
+			st.early++
+		}
+		st.mu.Unlock()
+	}()
 	for j := range jobs {
 		acc := 0
 		for k := 0; k <= j.v; k++ {
@@ -36,14 +51,18 @@ func Run() {
 	jobs := make(chan job, capa)
 	results := make(chan result, capa)
 	var wg sync.WaitGroup
+	st := &state{}
 	for w := 0; w < nw; w++ {
 		wg.Add(1)
-		go worker(w, jobs, results, &wg)
+		go worker(w, jobs, results, &wg, st)
 	}
 	go func() {
 		for i := 0; i < nj; i++ {
 			jobs <- job{id: i, v: i + 3}
 		}
+		st.mu.Lock()
+		st.closed = true
+		st.mu.Unlock()
 		close(jobs)
 	}()
 	go func() {
@@ -60,4 +79,7 @@ func Run() {
 		host.Emit(0, i*1000+v)
 	}
 	host.Emit(1, cnt)
+	st.mu.Lock()
+	host.Emit(2, st.early)
+	st.mu.Unlock()
 }
